@@ -1,6 +1,9 @@
 import Replicon.Proofs.Client
 import Replicon.Props.C08
 import Replicon.Proofs.JointGhost
+import Replicon.Proofs.Sync
+import Replicon.Proofs.ClientSync
+import Replicon.Proofs.Session
 /-
 C03 — Structural changes reach clients atomically and in server order.
 
@@ -15,13 +18,21 @@ sends a client carries a tick larger than that of every update message sent to t
 before in its session; with `C03_tick_monotone` (the client never applies an older tick) the
 ordered channel therefore makes the client apply structural changes in server order.
 
+Which entities, over ALL histories (`Proofs/Sync.lean`, `Proofs/ClientSync.lean`): after every
+replication run the server tracks for every authorized client exactly the replicated entities
+visible to it (`C03_history_entities`); the DESPAWNS and CHANGES sections of the run's update
+message are exactly the difference of the tracked sets (`C03_history_message_is_difference`); and
+the client model that holds the tracked set and applies that message holds the new tracked set
+(`C03_history_frame_both_sides`).
+
 What else is proved here are the per-section facts the property rests on.  The end-to-end statement
-— "the client's structure equals the server's view at the client's update tick", i.e. that
-`applyUpdate` of the run's message turns the view of the previous update tick into the view of
-this tick for *every* reachable server state — is **not** proved as one theorem
-(`C03_structure_partial`): it is evaluated as an oracle on the implementation after every client
-frame of every trace.  The missing step is the server invariant relating the removal / despawn
-buffers and per-component added ticks to the difference of two consecutive views.
+— "the client's structure equals the server's view at the client's update tick" — is proved at
+the level of *which entities* for one frame on both sides (above); **not** proved as one theorem
+(`C03_structure_partial`) are its composition along the message sequence of a session and the
+component level (which components each entity has): they are evaluated as an oracle on the
+implementation after every client frame of every trace.  The missing step for components is the
+server invariant relating the removal buffer and per-component added ticks to the difference of
+two consecutive views.
 -/
 namespace Replicon.C03
 open Replicon Replicon.Srv Replicon.Cli
@@ -104,5 +115,133 @@ example :
        .frame true 10 (fun _ => []), .insert 5 1 9, .frame true 10 (fun _ => []), .authorize 1, .frame true 10 (fun _ => [])]
     ((Joint.run s0 ops).1.sent 0, (Joint.run s0 ops).1.sent 1) = ([1, 3], [4]) := by
   decide
+
+/-- **Which entities a client holds, over ALL histories** (`Proofs/Sync.lean`, joint model):
+after any history in which entity identifiers are not reused, from a server without entities
+and clients (any visibility policy, any replication rules), whatever the next frame is — if
+`send_replication` runs in it, then afterwards, for every authorized client, the entities the
+server tracks for that client (`ClientTicks`) are exactly the entities that carry the
+replication marker and are visible to that client. -/
+theorem C03_history_entities (s0 : Server) (hw : s0.world = []) (hc0 : s0.clients = []) (ops : List Joint.Op)
+    (hl : Joint.Legal { srv := s0 } ops) (ticked : Bool) (ms : Nat) (parts : Nat → List (List Nat))
+    (hr : (Joint.run { srv := s0 } ops).1.srv.running = true)
+    (hc : (preRun (Joint.run { srv := s0 } ops).1.srv ticked ms).tickChanged = true) :
+    ∀ x ∈ (Joint.frame (Joint.run { srv := s0 } ops).1 ticked ms parts).1.srv.clients, x.2.authorized = true →
+      ∀ e, e ∈ keys x.2 ↔
+        marked (Joint.frame (Joint.run { srv := s0 } ops).1 ticked ms parts).1.srv.world e ∧
+        Vis.isVisible (Joint.frame (Joint.run { srv := s0 } ops).1 ticked ms parts).1.srv.white (cell x.2 e) = true :=
+  (Joint.history_sync s0 hw hc0 ops hl ticked ms parts hr hc).1
+
+/-- **The update message is exactly the structural difference, over ALL histories**: for every
+replication output of that frame, a receiver that held exactly the entities the server tracked
+for the client before the frame, and that applies the frame's update message — DESPAWNS, then
+CHANGES (`applyKeys`) — holds exactly the entities tracked after the frame (none, if no update
+message was sent: then the tracked set did not change).  With `C03_history_entities` and the
+reliable ordered channel (`C03_history_server_order`): tick by tick the receiver holds the
+replicated entities visible to it, never a stale or a missing one.  (Components: a newly tracked
+entity is written whole, `C03_new_entity_whole`; the per-component part of the statement is the
+oracle of the trace checker.) -/
+theorem C03_history_message_is_difference (s0 : Server) (hw : s0.world = []) (hc0 : s0.clients = [])
+    (ops : List Joint.Op) (hl : Joint.Legal { srv := s0 } ops) (ticked : Bool) (ms : Nat)
+    (parts : Nat → List (List Nat))
+    (hr : (Joint.run { srv := s0 } ops).1.srv.running = true)
+    (hc : (preRun (Joint.run { srv := s0 } ops).1.srv ticked ms).tickChanged = true) :
+    ∀ c o, (c, o) ∈ (Joint.frame (Joint.run { srv := s0 } ops).1 ticked ms parts).2.1 →
+      ∃ cl cl', (c, cl) ∈ (preRun (Joint.run { srv := s0 } ops).1.srv ticked ms).clients ∧ cl.authorized = true ∧
+        (c, cl') ∈ (Joint.frame (Joint.run { srv := s0 } ops).1 ticked ms parts).1.srv.clients ∧
+        ∀ held : List Nat, (∀ e, e ∈ held ↔ e ∈ keys cl) → ∀ e, e ∈ applyKeys held o.update ↔ e ∈ keys cl' :=
+  (Joint.history_sync s0 hw hc0 ops hl ticked ms parts hr hc).2
+
+/-- **Both sides of the wire, over ALL histories of the server** (`Proofs/ClientSync.lean`): after
+any history in which entity identifiers are not reused and a stopped server sees a frame before
+it is started again (the schedules C09 quantifies over), in the next frame, for every authorized
+client without a pending pre-spawn mapping (those are C16's): a receiver — the client model of
+`Model/Client.lean`, in any well-formed state — that holds exactly the server entities the
+server tracks for that client, and applies the frame's update message with `applyUpdate`, stays
+well-formed, no section of the message fails, and afterwards it holds (as live, marked, mapped
+entities) exactly the entities the server tracks after the frame, i.e. by `C03_history_entities`
+the replicated entities visible to it at that tick.  This is the inductive step of "the client's
+set of replicated entities equals the server's view at the client's update tick"; what remains
+unproved as one theorem is its composition along a session's message sequence and the
+component level (`C03_structure_partial`). -/
+theorem C03_history_frame_both_sides (s0 : Server) (hw : s0.world = []) (hc0 : s0.clients = [])
+    (hb : s0.removalBuf = []) (ops : List Joint.Op) (hl : Joint.Legal' { srv := s0 } ops)
+    (ticked : Bool) (ms : Nat) (parts : Nat → List (List Nat))
+    (hr : (Joint.run { srv := s0 } ops).1.srv.running = true)
+    (x : Nat × Cli) (hx : x ∈ (preRun (Joint.run { srv := s0 } ops).1.srv ticked ms).clients)
+    (ha : x.2.authorized = true) (hmap : x.2.mappings = [])
+    (c : Client) (wf : WF c) (hh : ∀ se, held c se ↔ se ∈ keys x.2) :
+    match (runClient (preRun (Joint.run { srv := s0 } ops).1.srv ticked ms)
+        ((preRun (Joint.run { srv := s0 } ops).1.srv ticked ms).now + 1) x.2).2.update with
+    | some u => WF (applyUpdate c u) ∧
+        ∀ se, held (applyUpdate c u) se ↔
+          se ∈ keys (ranClient (preRun (Joint.run { srv := s0 } ops).1.srv ticked ms) parts x).2
+    | none => ∀ se, held c se ↔
+          se ∈ keys (ranClient (preRun (Joint.run { srv := s0 } ops).1.srv ticked ms) parts x).2 :=
+  Joint.history_both_sides s0 hw hc0 hb ops hl ticked ms parts hr x hx ha hmap c wf hh
+
+/-- **End to end at the level of entities, over ALL histories, across both models**
+(`Proofs/Session.lean`): after any history of the joint server model — entity identifiers not
+reused, a stopped server sees a frame before it is started again, no pre-spawn mappings — that
+ends with a frame in which `send_replication` ran, for every authorized client: the client model
+of `Model/Client.lean`, started fresh and fed, in order, the update messages the server sent that
+client since it connected (the ghost log `Joint.runLog`; the ordered reliable channel), is
+well-formed — no section of any of those messages failed — and holds, as live mapped entities
+carrying the replication marker, exactly the server entities that carry the replication marker
+and are visible to that client.  A client that has applied only a prefix of those messages is
+in the state this theorem describes for the history cut after the frame that sent the last of
+them (its state depends on the update messages only), so it holds the server's view *at its
+update tick*: the entity part of the C03 statement, for every history. -/
+theorem C03_history_session (s0 : Server) (hw : s0.world = []) (hc0 : s0.clients = []) (hb : s0.removalBuf = [])
+    (ops : List Joint.Op) (ticked : Bool) (ms : Nat) (parts : Nat → List (List Nat))
+    (hl : Joint.Legal2 { srv := s0 } (ops ++ [.frame ticked ms parts]))
+    (hr : (Joint.run { srv := s0 } ops).1.srv.running = true)
+    (hc : (preRun (Joint.run { srv := s0 } ops).1.srv ticked ms).tickChanged = true) :
+    ∀ x ∈ (Joint.run { srv := s0 } (ops ++ [.frame ticked ms parts])).1.srv.clients, x.2.authorized = true →
+      WF (Joint.replay ((Joint.runLog { srv := s0 } (fun _ => []) (ops ++ [.frame ticked ms parts])).2 x.1)) ∧
+      ∀ se, held (Joint.replay ((Joint.runLog { srv := s0 } (fun _ => []) (ops ++ [.frame ticked ms parts])).2 x.1)) se ↔
+        marked (Joint.run { srv := s0 } (ops ++ [.frame ticked ms parts])).1.srv.world se ∧
+        Vis.isVisible (Joint.run { srv := s0 } (ops ++ [.frame ticked ms parts])).1.srv.white (cell x.2 se) = true :=
+  Joint.session_view s0 hw hc0 hb ops ticked ms parts hl hr hc
+
+/-- Non-vacuity of `C03_history_session`: a history with a reconnect, a hidden entity and a
+despawn satisfies the hypotheses; the replayed client of the second session holds entity 5 only
+(mapped to its client entity 0), the one of client 1 holds 5 and 7. -/
+example :
+    let s0 : Server := { rates := [(0, .every), (1, .every)] }
+    let ops : List Joint.Op :=
+      [.start, .connect 0 true, .connect 1 true, .spawn 5 true [(0, 7)], .spawn 6 true [(1, 1)],
+       .frame true 10 (fun _ => []), .disconnect 0, .connect 0 true, .despawn 6, .spawn 7 true [],
+       .vis 0 7 false]
+    Joint.Legal2 { srv := s0 } (ops ++ [.frame true 10 (fun _ => [])]) ∧
+    (Joint.run { srv := s0 } ops).1.srv.running = true ∧
+    (preRun (Joint.run { srv := s0 } ops).1.srv true 10).tickChanged = true ∧
+    (Joint.replay ((Joint.runLog { srv := s0 } (fun _ => []) (ops ++ [.frame true 10 (fun _ => [])])).2 0)).s2c = [(5, 0)] ∧
+    ((Joint.replay ((Joint.runLog { srv := s0 } (fun _ => []) (ops ++ [.frame true 10 (fun _ => [])])).2 1)).s2c.map (·.1)) = [7, 5] := by
+  refine ⟨by decide, by decide, by decide, by decide, by decide⟩
+
+/-- Non-vacuity of the receiver's hypotheses: a fresh client is well-formed and holds nothing,
+which is what the server tracks for a newly authorized client. -/
+example : WF ({} : Client) ∧ ∀ se, ¬ held ({} : Client) se := by
+  refine ⟨⟨?_, ?_, ?_⟩, ?_⟩
+  · intro se ce h; cases h
+  · intro se se' ce h; cases h
+  · intro ce h; cases h
+  · rintro se ⟨ce, ent, h, _⟩; cases h
+
+/-- Non-vacuity: a legal history with two clients (blacklist policy): entity 5 is hidden from
+client 0 and later shown again, entity 6 is despawned; the hypotheses of the two theorems hold
+for the next frame, and the tracked sets are what the statement says. -/
+example :
+    let s0 : Server := { rates := [(0, .every), (1, .every)] }
+    let ops : List Joint.Op :=
+      [.start, .connect 0 true, .connect 1 true, .spawn 5 true [(0, 7)], .spawn 6 true [(1, 1)],
+       .frame true 10 (fun _ => []), .vis 0 5 false, .frame true 10 (fun _ => []), .despawn 6, .vis 0 5 true]
+    Joint.Legal { srv := s0 } ops ∧ Joint.Legal' { srv := s0 } ops ∧ (Joint.run { srv := s0 } ops).1.srv.running = true ∧
+    (preRun (Joint.run { srv := s0 } ops).1.srv true 10).tickChanged = true ∧
+    ((Joint.run { srv := s0 } ops).1.srv.clients.map fun x => (x.1, keys x.2)) = [(0, [6]), (1, [5, 6])] ∧
+    ((Joint.frame (Joint.run { srv := s0 } ops).1 true 10 (fun _ => [])).1.srv.clients.map fun x => (x.1, keys x.2))
+      = [(0, [5]), (1, [5])] := by
+  refine ⟨by decide, by decide, by decide, by decide, by decide, by decide⟩
 
 end Replicon.C03
